@@ -265,6 +265,35 @@ def check_forward(program, rep):
     fn = inst.params()[1]
     ok = len(body) == 1 and isinstance(body[0], ast.Return) and norm(
         body[0].value) == f'self.handle_type({fn}, *self.args, **self.kwargs)'
+    if not ok:
+        # path based: on every returning path the factory is called once with
+        # the file name; *self.args / **self.kwargs may be left out only on a
+        # path that found them empty
+        exits = Walker(program, Domain(program)).run(inst, rule)
+        ok = bool(exits)
+        for ex in exits:
+            if ex.kind != 'return' or ex.payload is None:
+                ok = False
+                continue
+            conds = {e.sym.text: e.extra for e in ex.state.trace
+                     if e.kind == 'cond'}
+            rv = ex.payload.node
+            if not (isinstance(rv, ast.Call) and norm(rv.func)
+                    == 'self.handle_type' and rv.args
+                    and norm(rv.args[0]) == fn):
+                ok = False
+                continue
+            rest = [norm(a) for a in rv.args[1:]]
+            kws = [(k.arg, norm(k.value)) for k in rv.keywords]
+            empty_a = conds.get('self.args') is False or conds.get(
+                'len(self.args)') is False
+            empty_k = conds.get('self.kwargs') is False or conds.get(
+                'len(self.kwargs)') is False
+            if not (rest == ['*self.args'] or (rest == [] and empty_a)):
+                ok = False
+            if not (kws == [(None, 'self.kwargs')] or (kws == []
+                                                       and empty_k)):
+                ok = False
     rep.check(ok, 'C16.forward', inst.where, body[0] if body else 'instantiate',
               'the factory receives the file path and the rule\'s extra '
               'arguments', 'instantiate does not return handle_type(filename, '
